@@ -267,6 +267,34 @@ fn battery(ctx: &mut Ctx, st: &mut St, req: &Request, p: &Proof, r: &mut Rng, pr
             }
         }
     }
+    // a section added to an honest proof: a block section with other bytes next to an honest
+    // hash section for the same leaf, or a bogus hash section next to an honest block section.
+    // Whatever section the verifier prefers, bytes the writer did not sign must not be stored.
+    if let (Some(h), None) = (&p.hash, &p.block) {
+        if h.index % 2 == 0 && !h.nodes.is_empty() {
+            let i = h.index / 2;
+            if (i as usize) < st.all_blocks.len() {
+                let mut v = st.all_blocks[i as usize].clone();
+                if v.is_empty() {
+                    v.push(7);
+                } else {
+                    v[0] ^= 0x55;
+                }
+                let mut q = p.clone();
+                q.block = Some(hypercore::DataBlock { index: i, value: v, nodes: h.nodes[1..].to_vec() });
+                cands.push(Cand { name: "forgery:block-section-added-to-hash-proof".into(), kind: "forgery:added-section".into(), must_refuse: true, proof: q });
+            }
+        }
+    }
+    if let (Some(b), None) = (&p.block, &p.hash) {
+        let mut q = p.clone();
+        let mut nodes = vec![hypercore::Node::new(2 * b.index, vec![0x33; 32], b.value.len() as u64)];
+        nodes.extend(b.nodes.iter().cloned());
+        q.hash = Some(hypercore::DataHash { index: 2 * b.index, nodes });
+        // the honest block section still authenticates: acceptance is legitimate only if the
+        // result is indistinguishable from the honest proof (checked by the must-refuse rule)
+        cands.push(Cand { name: "forgery:hash-section-added-to-block-proof".into(), kind: "forgery:added-section".into(), must_refuse: true, proof: q });
+    }
     // stale genuine proofs
     let nst = st.stale.len();
     for (i, q) in st.stale.iter().enumerate().filter(|(i, _)| *i + 3 >= nst || *i == 0) {
